@@ -6,3 +6,31 @@
 //! `SqliteStore`. Adds no behaviour.
 pub use crate::streams::AckedError;
 pub use crate::streams::VerifAcked as Acked;
+
+/// Schedule points of `Acked::cursor` (`cursor_before_read`, `cursor_after_read`) and `Acked::ack`
+/// (`ack_after_write`), for replaying interleavings of concurrent acknowledgements step by step.
+/// Same pattern as `p2panda_store::sqlite::verif`: without an installed callback (and whenever the
+/// callback returns `None`) every point is a no-op.
+pub type PointFn = std::sync::Arc<
+    dyn Fn(&'static str) -> Option<std::pin::Pin<Box<dyn std::future::Future<Output = ()> + Send>>>
+        + Send
+        + Sync,
+>;
+
+static POINT: std::sync::Mutex<Option<PointFn>> = std::sync::Mutex::new(None);
+
+/// Installs (or removes) the process-wide schedule point callback.
+pub fn install(f: Option<PointFn>) {
+    *POINT.lock().unwrap() = f;
+}
+
+/// Awaitable schedule point.
+pub async fn point(name: &'static str) {
+    let fut = {
+        let current = POINT.lock().unwrap().clone();
+        current.and_then(|f| f(name))
+    };
+    if let Some(fut) = fut {
+        fut.await;
+    }
+}
